@@ -8,6 +8,11 @@ IdsBase == <<[a |-> 1, f |-> "lower", id |-> "slot-rsa"], [a |-> 3, f |-> "upper
 Base == [hs |-> <<"regular">>, ns |-> "NONS", hard |-> FALSE, ln |-> "ln", ru |-> "ru", rh |-> "rh", ip |-> "ip", tid |-> "t",
          algo |-> 1, val |-> 43200, valx |-> "43200", ids |-> IdsBase, dir |-> DirU, ans |-> "honest",
          ncert |-> 1, ncsr |-> 1, sgen |-> "ok", more |-> FALSE, fok |-> FALSE,
+         delay |-> "none",      \* the forwarded agent answers the sign request at once / after 0.5 s ("short") / after more than any
+                                \* plausible per-step timeout ("long" = 11.5 s, "vlong" = 35 s)
+         vform |-> "num", valx2 |-> "43200",   \* how the configuration writes cert_validity_sec (see Gensign!AcceptableVal)
+         crep |-> "cert",       \* representation of the certificates the signer returns: concrete *ssh.Certificate ("cert"),
+                                \* *agent.Key holding the certificate blob ("agentkey"), another ssh.PublicKey implementation ("wrapper")
          wire |-> "json",       \* request message format: "json", or the text of the legacy HardKey attribute ("absent" = none)
          kalgo |-> "ECCP256"]   \* key algorithm of the stub handler's agent key (the regular handler uses the package default)
 \* the legacy message format cannot name a CA key algorithm: algorithm 0 (default) must have a slot
@@ -58,11 +63,16 @@ C01_Sc1 == {[Base EXCEPT !.dir = d, !.ans = a] : d \in AllDirs, a \in Ans1}
       \cup {[Base EXCEPT !.ns = n, !.hard = h, !.dir = d] : n \in {"NONS", "NSOK"}, h \in BOOLEAN, d \in {DirU, Dir("none", "none", "U", "none")}}
       \cup {[Base EXCEPT !.hs = hl, !.ans = a] : hl \in HL, a \in {"honest", "otherkey"}}
       \cup {Legacy(w) : w \in LegacyWires}
+      \* slow agents x every outcome: whoever does not prove possession gets nothing, however long it takes
+      \cup {[Base EXCEPT !.delay = d, !.ans = a, !.dir = dd] : d \in {"short", "long"}, a \in {"honest", "nokey", "garbage", "otherkey", "failure"},
+                                                             dd \in {DirU, Dir("O", "none", "none", "none")}}
+      \cup {[Base EXCEPT !.delay = "long", !.ans = a, !.hs = <<"regular", "accept">>] : a \in {"honest", "nokey"}}
       \cup {[Legacy(w) EXCEPT !.hs = <<"reject", "regular", "accept">>] : w \in {"1", "T", "0", "absent"}}
       \cup {[Base EXCEPT !.hs = hl, !.fok = TRUE] : hl \in {<<"reject", "accept">>, <<"regular", "accept">>, <<"reject">>}}
       \cup {[Base EXCEPT !.hs = hl, !.more = TRUE] : hl \in {<<"regular">>, <<"reject", "regular">>}}
 C01_Sc2(s) == IF s.more THEN {[Base EXCEPT !.ans = a, !.hs = hl] : a \in Ans2, hl \in {<<"regular">>, <<"regular", "accept">>}} ELSE {}
-C01t_Sc1 == C01_Sc1 \cup {[Base EXCEPT !.hs = hl, !.ans = a, !.ns = n, !.hard = h, !.fok = TRUE] :
+C01t_Sc1 == C01_Sc1 \cup {[Base EXCEPT !.delay = "vlong", !.ans = a, !.dir = dd] : a \in {"honest", "nokey", "garbage", "otherkey", "failure"},
+                                                             dd \in {DirU, Dir("O", "none", "none", "none")}} \cup {[Base EXCEPT !.hs = hl, !.ans = a, !.ns = n, !.hard = h, !.fok = TRUE] :
                             hl \in HL, a \in {"honest", "closed", "replay"}, n \in {"NONS", "NSOK"}, h \in BOOLEAN}
                     \cup {[Base EXCEPT !.hs = hl, !.more = TRUE, !.ans = a] : hl \in {<<"regular">>, <<"reject", "regular">>}, a \in {"honest", "otherdata"}}
 C01t_Sc2(s) == IF s.more THEN {[Base EXCEPT !.ans = a, !.hs = hl, !.dir = d] : a \in Ans2,
@@ -73,9 +83,15 @@ C01t_Sc2(s) == IF s.more THEN {[Base EXCEPT !.ans = a, !.hs = hl, !.dir = d] : a
 Other(a) == (a + 1) % 5
 IdMaps(a) == {<<>>, <<[a |-> Other(a), f |-> "lower", id |-> "slot-o"]>>}
         \cup {<<[a |-> a, f |-> f, id |-> "slot-a"], [a |-> Other(a), f |-> "upper", id |-> "slot-o"]>> : f \in {"lower", "upper", "mixed", "num"}}
-C02_Sc1 == UNION {{[Base EXCEPT !.algo = a, !.ids = m, !.val = v.n, !.valx = v.x] : m \in IdMaps(a), v \in Vals} : a \in 0..4}
-       \cup {[Base EXCEPT !.val = v.n, !.valx = v.x, !.hs = hl] : v \in VBound, hl \in {<<"regular">>, <<"reject", "regular">>}}
-       \cup {[Base EXCEPT !.val = v.n, !.valx = v.x, !.more = TRUE] : v \in {VC("4294967296", 2147483647), VC("4295010496", 2147483647)}}
+C02_Sc1 == UNION {{[Base EXCEPT !.algo = a, !.ids = m, !.val = v.n, !.valx = v.x, !.valx2 = v.x] : m \in IdMaps(a), v \in Vals} : a \in 0..4}
+       \cup {[Base EXCEPT !.val = v.n, !.valx = v.x, !.valx2 = v.x, !.hs = hl] : v \in VBound, hl \in {<<"regular">>, <<"reject", "regular">>}}
+       \cup {[Base EXCEPT !.val = v.n, !.valx = v.x, !.valx2 = v.x, !.more = TRUE] : v \in {VC("4294967296", 2147483647), VC("4295010496", 2147483647)}}
+       \* configuration TEXT classes of the numeric field (value 7200; null = the default 43200)
+       \cup {[Base EXCEPT !.vform = f, !.val = 7200, !.valx = "7200", !.valx2 = (IF f = "frac" THEN "7201" ELSE "7200"), !.hs = hl] :
+               f \in {"num", "float0", "exp", "frac", "neg", "str", "str0", "strhex", "strus", "strsp", "bool"},
+               hl \in {<<"regular">>, <<"accept", "regular">>, <<"accept">>}}
+       \cup {[Base EXCEPT !.vform = "null", !.hs = hl] : hl \in {<<"regular">>, <<"accept", "regular">>}}
+       \cup {[Base EXCEPT !.vform = f, !.val = 7200, !.valx = "7200", !.valx2 = "7200", !.more = TRUE] : f \in {"str0", "neg", "num"}}
        \* CA key algorithm numbers beyond the named ones, configured by number
        \cup UNION {{[Base EXCEPT !.algo = a, !.ids = m] : m \in {<<>>, <<[a |-> a, f |-> "num", id |-> "slot-a"], [a |-> 1, f |-> "lower", id |-> "slot-o"]>>}} : a \in {5, 255, 65536, 2147483647}}
        \cup {[Base EXCEPT !.more = TRUE, !.hs = hl] : hl \in {<<"regular">>, <<"reject", "regular">>}}
@@ -85,14 +101,15 @@ C02_Sc2(s) == IF s.more THEN {[Base EXCEPT !.algo = a, !.more = m] : a \in {1, 2
 \* C03: histories of two (thorough: three) runs, success / failure before, during and after signing, 0..3 certificates,
 \* validity 1 s .. 10 y, pre-existing identities of every class
 C03_Sc1 == {[Base EXCEPT !.hs = hl, !.ncert = n, !.more = TRUE] : hl \in {<<"regular">>, <<"accept">>}, n \in {1, 3}}
-      \cup {[Base EXCEPT !.val = v.n, !.valx = v.x, !.more = TRUE] : v \in Vals}
+      \cup {[Base EXCEPT !.val = v.n, !.valx = v.x, !.valx2 = v.x, !.more = TRUE] : v \in Vals}
       \cup {[Base EXCEPT !.ans = "otherkey", !.more = TRUE]}
       \cup {[Base EXCEPT !.hs = <<"accept">>, !.kalgo = k, !.ncert = 2, !.more = TRUE] : k \in KAlgos}   \* every agent-key algorithm
+      \cup {[Base EXCEPT !.hs = hl, !.crep = c, !.ncert = 2] : hl \in {<<"regular">>, <<"accept">>}, c \in {"agentkey", "wrapper"}}
 C03_Sc2(s) == IF ~s.more THEN {}
               ELSE IF s.kalgo # "ECCP256" THEN {[Base EXCEPT !.hs = <<"accept">>, !.kalgo = s.kalgo, !.ncert = n, !.fok = (n = 2)] : n \in {1, 2}}
               ELSE {[Base EXCEPT !.hs = hl, !.ncert = n, !.fok = TRUE] : hl \in {<<"regular">>, <<"accept">>}, n \in {0, 2}}
                    \cup {[Base EXCEPT !.ans = "otherkey"], [Base EXCEPT !.algo = 2]}
-C03t_Sc1 == {[Base EXCEPT !.hs = hl, !.ncert = n, !.val = v.n, !.valx = v.x, !.more = TRUE] : hl \in {<<"regular">>, <<"accept">>}, n \in 1..3, v \in Vals}
+C03t_Sc1 == {[Base EXCEPT !.hs = hl, !.ncert = n, !.val = v.n, !.valx = v.x, !.valx2 = v.x, !.more = TRUE] : hl \in {<<"regular">>, <<"accept">>}, n \in 1..3, v \in Vals}
        \cup {[Base EXCEPT !.ans = "otherkey", !.more = TRUE]}
        \cup {[Base EXCEPT !.hs = <<"accept">>, !.kalgo = k, !.ncert = 3, !.more = TRUE] : k \in KAlgos}
 \* (second runs admit faults; a third run follows a regular second run, without further faults)
@@ -108,6 +125,7 @@ C03t_Sc2(s) == IF ~s.more THEN {}
 C04_Sc1 == {[Base EXCEPT !.ncert = n, !.fok = TRUE] : n \in 0..3}         \* 0 = the CA replies OK without a certificate
       \cup {[Base EXCEPT !.hs = <<"accept">>, !.ncert = n, !.ncsr = k, !.fok = TRUE] : n \in 0..3, k \in 1..2}
       \cup {[Base EXCEPT !.hs = <<"accept">>, !.kalgo = k, !.ncert = 2, !.fok = TRUE] : k \in KAlgos}
+      \cup {[Base EXCEPT !.hs = hl, !.crep = c, !.ncert = n, !.fok = TRUE] : hl \in {<<"regular">>, <<"accept">>}, c \in {"agentkey", "wrapper"}, n \in {1, 3}}
       \cup {[Base EXCEPT !.hs = <<"accept">>, !.sgen = g, !.fok = TRUE] : g \in {"CSR", "Conf", "Params", "empty"}}
       \cup {[Base EXCEPT !.hs = hl, !.ans = a, !.fok = TRUE] : hl \in {<<"regular", "accept">>, <<"reject", "regular">>}, a \in {"honest", "otherkey", "closed"}}
       \cup {[Base EXCEPT !.hs = hl, !.fok = TRUE] : hl \in {<<>>, <<"reject">>, <<"reject", "reject">>, <<"reject", "accept">>}}
